@@ -89,17 +89,19 @@ def S(name, mode, count, maxdepth, shards=16, extra=None):
     return {"name": name, "stream": "search", "driver": "search", "shards": shards,
             "args": ["--mode", mode, "--count", count, "--maxdepth", maxdepth] + (extra or [])}
 
-SEARCH_RULE = ("search cases = (position with its game history: 40 seed FENs + positions reached by random play incl. deliberate repetitions) x depth x "
+SEARCH_RULE = ("search cases = (position with its game history: the 50 seed FENs interleaved with positions reached by random play incl. deliberate repetitions — a third of the histories end with both sides "
+               "shuffling a piece out and back so that the ROOT repeats an earlier position, a third with half of such a shuffle — plus roots with a single legal move and roots without moves) x depth x "
                "(node budget | stop-at-poll k | none) x cache mode (fresh | kept from earlier searches | neutralised); each case runs the real Search::search "
                "in-process and is compared line by line with the executable Lean search model (info lines, bestmove, every cache insert with node counter / flag / ply, "
                "node count, seldepth, poll count, cache size and checksum) and with the property's own oracle; distinct_nontrivial = distinct case descriptors, counted by the driver")
 
-SP_Q = S("search-plain", "plain", 48, 3, extra=["--repeat", 2])
-SO_Q = dict(S("search-off", "off", 48, 3), driver="search:6")
-SB_Q = S("search-budget", "budget", 24, 2, extra=["--step", 1, "--maxcases", 120])
-SS_Q = S("search-stop", "stop", 24, 2, extra=["--step", 3, "--maxcases", 120])
-SK_Q = S("search-keep", "keep", 48, 3)
-SC_Q = S("search-clock", "clock", 24, 2, extra=["--maxcases", 100])
+SP_Q = S("search-plain", "plain", 100, 3, extra=["--repeat", 2])
+SO_Q = dict(S("search-off", "off", 100, 3), driver="search:6")
+SB_Q = S("search-budget", "budget", 32, 2, extra=["--step", 1, "--maxcases", 120])
+SS_Q = S("search-stop", "stop", 32, 2, extra=["--step", 3, "--maxcases", 120])
+SK_Q = S("search-keep", "keep", 64, 3)
+SB3_Q = S("search-budget3", "budget", 48, 3, extra=["--step", 1, "--maxcases", 60])   # interruptions inside iteration 3: a partial iteration that already improved on iteration 2
+SC_Q = S("search-clock", "clock", 32, 2, extra=["--maxcases", 100])
 SC_T = S("search-clock", "clock", 160, 3, extra=["--maxcases", 1200])
 SP_T = S("search-plain", "plain", 400, 4, extra=["--repeat", 2])
 SO_T = dict(S("search-off", "off", 480, 4), driver="search:12")
@@ -114,7 +116,7 @@ PROPS["C14"] = {
                 "thorough": [SP_T, S("search-budget", "budget", 64, 3, extra=["--step", 11, "--maxcases", 300]), SK_T, S("search-game", "game", 400, 5, extra=["--plies", 12])]},
     "eval_key": "cases", "distinct_key": "distinct_cases",
     "rule": SEARCH_RULE + "; for C14: every info line is checked against the UCI token grammar, depths must be 1,2,3,... in order, every PV is replayed move by move "
-            "on the rules spec, and an unlimited depth-N search must report all N depths",
+            "on the rules spec and must have at least one move, and an unlimited depth-N search must report all N depths (also at roots with a single legal move and at roots that repeat an earlier position of the game)",
     "assumptions": ["pv_legal assumes KeyMoves (positions with equal 64-bit keys generate the same moves) and that the initial cache holds generated moves",
                     "time / nps tokens are clock dependent: checked for syntax on the real binary's output, not modelled"],
 }
@@ -122,7 +124,7 @@ PROPS["C14"] = {
 PROPS["C13"] = {
     "module": "RCE.Props.C13",
     "theorems": ["RCE.Props.C13.writes_only_complete", "RCE.Props.C13.no_nodes_after_abort", "RCE.Props.C13.abortCheck_interrupts"],
-    "streams": {"quick": [SB_Q, SS_Q, SC_Q], "thorough": [SB_T, SS_T, SC_T, SK_T]},
+    "streams": {"quick": [SB_Q, SS_Q, SC_Q, SB3_Q], "thorough": [SB_T, SS_T, SC_T, SK_T]},
     "eval_key": "cases", "distinct_key": "distinct_cases",
     "exhaustive": {"quick": False, "thorough": False},
     "rule": SEARCH_RULE + "; for C13: for each position the full search is sized first, then re-run under EVERY node budget 1..N+1 (or every k-th when N exceeds the case cap) and with a stop "
@@ -147,7 +149,7 @@ PROPS["C11"] = {
 PROPS["C16"] = {
     "module": "RCE.Props.C16",
     "theorems": ["RCE.Props.C16.search_clock_indep"],
-    "streams": {"quick": [S("search-plain", "plain", 48, 3, extra=["--repeat", 3]), S("search-deep", "deep", 2, 7, shards=2),
+    "streams": {"quick": [S("search-plain", "plain", 64, 3, extra=["--repeat", 3]), S("search-deep", "deep", 2, 7, shards=2),
                           dict(S("search-xcheck", "xcheck", 2400, 4, extra=["--repeat", 2]), driver="search:0")],
                 "thorough": [S("search-plain", "plain", 400, 4, extra=["--repeat", 3]), S("search-deep", "deep", 4, 7, shards=4, extra=["--repeat", 3]),
                              dict(S("search-xcheck", "xcheck", 40000, 5, extra=["--repeat", 2]), driver="search:0"),
@@ -163,14 +165,15 @@ PROPS["C09"] = {
     "theorems": ["RCE.Props.C09.one_legal_bestmove", "RCE.Props.C09.ply_restored", "RCE.Props.C09.chess_bestmove_legal_by_the_rules",
                  "RCE.Props.C09.chess_eval_bounded", "RCE.Props.C09.chess_go_answers_a_legal_move",
                  "RCE.Props.C09.allowance_within_own_clock", "RCE.Props.C09.clock_expiry_noticed"],
-    "streams": {"quick": [SP_Q, SB_Q, SS_Q, SC_Q], "thorough": [SP_T, SB_T, SS_T, SC_T]},
+    "streams": {"quick": [SP_Q, SB_Q, SS_Q, SC_Q, SB3_Q, S("search-kb", "kb", 96, 3)], "thorough": [SP_T, SB_T, SS_T, SC_T, S("search-kb", "kb", 800, 4)]},
     "eval_key": "cases", "distinct_key": "distinct_cases",
     "rule": SEARCH_RULE + "; for C09: exactly one bestmove line per search, the move must be legal in the rules spec's position, no panic of the search, under every node budget and stop point "
             "(incl. budgets 1 and 2 where the first iteration is interrupted and the fallback move is used); the process-level part drives the real binary with limit mixes "
             "(depth, nodes, movetime 0/1/50, wtime/btime/winc/binc incl. 0, and mixes where only the mover's OWN clock is short while the opponent's clock and increment are large) and consecutive go commands, "
             "for both colours to move, and checks count, legality and latency of bestmove (time budget = movetime, and for clock limits the mover's own time + increment, + 0.6 s) and readyok afterwards; "
             "in-process clock cases run on a virtual clock (equal clocks, asymmetric clocks / increments, movetime) and the allowance the engine gives itself must not exceed the mover's own clock + increment; "
-            "roots with a single legal move and roots without moves are among the cases",
+            "roots with a single legal move and roots without moves are among the cases; kb mode: a full search, then — cache kept — positions two plies further on (replies that give check preferred) "
+            "searched with node budgets 1..8 or a stop at the first poll: whatever the cache holds about them, the answer must be legal",
     "assumptions": ["wall-clock latency is measured on the real binary only (PARTIAL for the timing clause: the model cannot exhibit how long a node takes)"],
 }
 
@@ -240,7 +243,7 @@ PROPS["C10"] = {
     "streams": {"quick": [], "thorough": []},
     "extra": procdrive.c10_extra,
     "need_engine": True,
-    "rule": "14 scripts over {go finite/infinite, stop, position, isready, go} x forced orderings of the labelled schedule points (search entry, first iteration done, before flag clear, "
+    "rule": "16 scripts (+ 2 on a position whose FIRST iteration takes minutes: a stop must still be answered at once) over {go finite/infinite, stop, position, isready, go} x forced orderings of the labelled schedule points (search entry, first iteration done, before flag clear, "
             "before/after bestmove, search exit, after spawn, command done) obtained by env-configured delays on the real binary (cfg rce_verif), on 2 (quick) / 6 (thorough) positions, repeated; "
             "observed: number of bestmoves, explicit refusals, time from stop to bestmove, readyok afterwards, legality of the moves; the realised order of the labelled points is read back from "
             "stderr and replayed on the Lean protocol model, whose bestmove / refusal counts must agree; distinct = (position, schedule) pairs",
